@@ -96,6 +96,17 @@ impl<const N: usize> StarlarkStrNRepr<N> {
 
 pub(crate) static VALUE_EMPTY_STRING: StarlarkStrNRepr<0> = StarlarkStrNRepr::new_unchecked("");
 
+/// Forget the lazily cached hashes of the statically allocated short strings, so that a
+/// controlled-scheduler execution can start from the process-start state (first-use race).
+#[cfg(starlark_verif)]
+pub(crate) fn verif_reset_hashes() {
+    use std::sync::atomic::Ordering;
+    VALUE_EMPTY_STRING.repr.payload.hash.store(0, Ordering::SeqCst);
+    for s in &VALUE_BYTE_STRINGS {
+        s.repr.payload.hash.store(0, Ordering::SeqCst);
+    }
+}
+
 #[doc(hidden)] // Use `const_frozen_string!` macro instead.
 #[inline(always)]
 pub fn constant_string(x: &str) -> Option<FrozenStringValue> {
